@@ -193,3 +193,35 @@ func TestOutageDuringResolve(t *testing.T) {
 	sysrun.Run(t, "C05", sub, sysrun.Family{Name: "outage", Quick: 120, Thorough: 5000, Gen: outageDuringResolve,
 		NonTrivial: func(c map[string]int64) bool { return c["resolutions_owed"] > 0 }}, checkers)
 }
+
+// shortRepeatLongGroupInterval: repeat_interval much shorter than group_interval (the log entry's
+// life is derived from both), log GC every minute; an alert is notified firing, resolves in the
+// middle of a group interval, and must be reported resolved by the next flush although several log
+// GCs ran in between.
+func shortRepeatLongGroupInterval(r *rand.Rand) *scen.Scenario {
+	gw := gen.Pick(r, []time.Duration{time.Second, 10 * time.Second})
+	gi := gen.Pick(r, []time.Duration{5 * time.Minute, 10 * time.Minute})
+	ri := gen.Pick(r, []time.Duration{30 * time.Second, time.Minute, 2 * time.Minute})
+	gb := []string{"alertname"}
+	cfg := &scen.Config{ResolveTimeout: 5 * time.Minute,
+		Route:     &model.RouteSpec{Receiver: "r0", GroupBy: &gb, GroupWait: &gw, GroupInterval: &gi, RepeatInterval: &ri},
+		Receivers: []scen.Receiver{{Name: "r0", Integs: []scen.Integ{{SendResolved: true}}}}}
+	s := &scen.Scenario{Config: cfg, Duration: 5 * gi, MaintenanceInterval: time.Minute}
+	l := model.Labels{"alertname": "A", "sev": "crit"}
+	t0 := time.Duration(1+r.Intn(30))*time.Second + time.Duration(1+r.Intn(998))*time.Millisecond
+	far := 3 * time.Hour
+	zero := time.Duration(0)
+	s.Ops = append(s.Ops, scen.Op{At: t0, Kind: "alerts", Alerts: []scen.PostSpec{{Labels: l, EndOff: &far}}})
+	if r.Intn(2) == 0 {
+		s.Ops = append(s.Ops, scen.Op{At: t0 + time.Millisecond, Kind: "alerts", Alerts: []scen.PostSpec{{Labels: model.Labels{"alertname": "A", "sev": "warn"}, EndOff: &far}}})
+	}
+	k := 1 + r.Intn(2)
+	resolveAt := t0 + gw + time.Duration(k)*gi + gen.Pick(r, []time.Duration{gi / 10, gi / 2, gi - 20*time.Second})
+	s.Ops = append(s.Ops, scen.Op{At: resolveAt, Kind: "alerts", Alerts: []scen.PostSpec{{Labels: l, EndOff: &zero}}})
+	return s
+}
+
+func TestShortRepeatLongGroupInterval(t *testing.T) {
+	sub := vf.Cur().Sub("short-repeat-long-group-interval", fmt.Sprintf(rule, "targeted: repeat_interval 30 s - 2 min with group_interval 5-10 min and notification-log GC every minute; an alert notified as firing resolves inside a group interval and must be reported resolved by the next flush"), 10)
+	sysrun.Run(t, "C05", sub, sysrun.Family{Name: "srlg", Quick: 40, Thorough: 2000, Gen: shortRepeatLongGroupInterval, NonTrivial: nt}, checkers)
+}
